@@ -252,6 +252,13 @@ def r_loop(ctx, tv, rule='S1-LOOP'):
             goods = [rb for rb, k, t in paths.ret_assigns(f) if k in ('ok', 'call', 'other') and rb in reach]
             if not goods:
                 kind = 'error'
+            else:
+                # an error raised inside a (virtually inlined) helper leaves the loop as an `Err(..)` value that the
+                # caller's `?` then returns: follow the values along the path (the source block builds the Err)
+                fr = paths.feasible_reach(f, b, avoid=[x for x in f.succ(b) if x != s])
+                goods2 = [rb for rb, k, t in paths.ret_assigns(f) if k in ('ok', 'call', 'other') and rb in fr]
+                if not goods2:
+                    kind = 'error'
         ctx.check(kind is not None, rule, '%s/exit#%d' % (f.path, n), '%s:%d' % (f.span['file'], paths.block_line(f, b)),
                   'loop exit: %s' % kind, 'the traversal loop of `%s` has an extra way out (line %d): with an unlimited budget it could stop before the queue is drained' % (f.path, paths.block_line(f, b)))
     ctx.check(budget is not None, rule, f.path + '/budget-exit', f.loc(), 'exit when len(candidates) >= budget', 'no `candidates.len() < budget` loop condition found')
@@ -304,7 +311,16 @@ def r_budget(ctx, tv, budget, rule='S5-BUDGET'):
     ctx.check(not raw, 'S10-OVERFLOW', f.path + '/budget-arithmetic', f.loc(), 'budget arithmetic is saturating',
               'the default search budget of `%s` is computed with unchecked arithmetic (%s): huge counts overflow (panic in debug, wrap-around in release)' % (f.path, [show(x)[:60] for x in raw][:2]))
     fields = set()
-    for x in walk(K):
+    from rules import inline_helper
+
+    def leaves(t, depth=0):
+        for x in walk(t):
+            yield x
+            if x[0] == 'call' and x[1] in F.fns and depth < 2:
+                it = inline_helper(x)     # small accessors (`self.n_trees()`) are looked through
+                if it is not None:
+                    yield from leaves(it, depth + 1)
+    for x in leaves(K):
         if x[0] == 'field' and x[2] in ('count', 'search_k', 'oversampling', 'roots', 'candidates', 'items', 'dimensions'):
             fields.add(x[2])
         if x[0] == 'const' and isinstance(x[2], str) and 'DEFAULT_OVERSAMPLING' in x[2]:
@@ -405,6 +421,12 @@ def budget_product(F, f, t, assume, depth=0):
                 if w in assume:
                     return [w] if assume[w] else budget_product(F, f, t0[2][1], assume, depth + 1)
             return None
+        if n in F.fns:
+            # a small accessor of the crate (`self.n_trees()`): look through it
+            from rules import inline_helper
+            it = inline_helper(t0)
+            if it is not None:
+                return budget_product(F, f, it, assume, depth + 1)
     return None
 
 
@@ -454,10 +476,14 @@ def _leaf(t):
     return show(t)[:30]
 
 
-def node_variant_blocks(f, get_call):
+def node_variant_blocks(f, get_call, within=None):
     """{variant name: entry block} of the match on the node fetched by get_call"""
     out = {}
     for b in f.live_blocks():
+        if within is not None and b not in within:
+            continue
+        if not f.dominates(get_call.bb, b):
+            continue
         sw = paths.switch_at(f, b)
         if sw is None:
             continue
@@ -491,7 +517,7 @@ def r_split_arm(ctx, tv, rule='S2-NO-PRUNING'):
     ki = key_info(get.arg_term(2))
     ctx.check(ki is not None and ki[0] == 'new' and strip(ki[1])[0] == 'field' and strip(ki[1])[2] == 'index' and paths.mentions_call(ki[2], tv.pop.bb),
               rule, f.path + '/fetch-popped-node', get.loc(), 'fetches Key::new(self.index, popped node)', 'the traversal does not fetch the node it popped')
-    arms, swb = node_variant_blocks(f, get)
+    arms, swb = node_variant_blocks(f, get, within=tv.loop)
     if not ctx.need('SplitPlaneNormal' in arms and 'Descendants' in arms and 'Leaf' in arms, rule, 'match on the three node kinds'):
         return
     split = arms['SplitPlaneNormal']
@@ -590,8 +616,12 @@ def r_scoring(ctx, tv, rule='S8-SCORE'):
     F = ctx.F
     f = tv.f
     sorts = [c for c in f.calls() if c.callee.endswith(('::sort_unstable', '::sort')) and tv.nns_term is not None and strip_all(c.arg_term(0)) == tv.nns_term]
-    its = [c for c in f.calls() if c.callee.endswith('IntoIterator::into_iter') and tv.nns_term is not None and strip_all(c.arg_term(0)) == tv.nns_term]
-    good = bool(sorts) and tv.dedup is not None and bool(its) and f.dominates(sorts[0].bb, tv.dedup.bb) and all(f.dominates(tv.dedup.bb, c.bb) for c in its) \
+    its = [c for c in f.calls() if c.callee.endswith(('IntoIterator::into_iter', '<impl [T]>::iter', 'Vec::<T, A>::drain', 'Vec::<T, A>::into_iter')) and tv.nns_term is not None
+           and any(y == tv.nns_term for y in walk(strip_all(c.arg_term(0))))]
+    # (feasible-path formulation: after virtual inlining the error returns of a helper merge in front of the caller's `?`,
+    # so plain dominance would be lost although no successful path skips the calls)
+    good = bool(sorts) and tv.dedup is not None and bool(its) and paths.must_pass(f, 0, [tv.dedup.bb], [sorts[0].bb]) \
+        and all(paths.must_pass(f, 0, [c.bb], [tv.dedup.bb]) for c in its) \
         and sorts[0].bb not in tv.loop and tv.dedup.bb not in tv.loop
     ctx.check(good, 'S7-DEDUP', f.path + '/sort-dedup', tv.dedup.loc() if tv.dedup else f.loc(), 'candidates sorted and deduplicated before scoring (each id scored once)',
               'the candidates of `%s` are not sorted+deduplicated before scoring: an item found in several trees would be returned several times' % f.path)
@@ -657,14 +687,78 @@ def r_scoring(ctx, tv, rule='S8-SCORE'):
     ctx.check(bool(hty) and all('ordered_float::OrderedFloat<f32>, u32' in t for t in hty), 'S9-OUTPUT', f.path + '/min-heap', f.loc(),
               'results popped from BinaryHeap<Reverse<(OrderedFloat<f32>, ItemId)>> (nearest first, NaN-total order)',
               'the results of `%s` do not come out of a BinaryHeap<Reverse<(OrderedFloat<f32>, ItemId)>>: %s' % (f.path, hty))
-    mins = [c for c in f.calls() if c.callee.endswith('::min') and any(s[0] == 'field' and s[2] == 'count' for s in walk(c.arg_term(0))) or
-            (c.callee.endswith('::min') and len(c.args) > 1 and any(s[0] == 'field' and s[2] == 'count' for s in walk(c.arg_term(1))))]
-    okm = False
-    for c in mins:
-        other = c.arg_term(1) if any(s[0] == 'field' and s[2] == 'count' for s in walk(c.arg_term(0))) else c.arg_term(0)
-        okm = strip(other)[0] == 'call' and strip(other)[1].endswith('::len')
-        cap = c
-    ctx.check(okm, 'S9-OUTPUT', f.path + '/bound', mins[0].loc() if mins else f.loc(), 'capacity = min(count, scored candidates)', 'the result bound of `%s` is not min(count, number of scored candidates)' % f.path)
+    def is_count(t):
+        t0 = strip(t)
+        return (t0[0] == 'field' and t0[2] == 'count') or (t0[0] == 'arg' and f.local_name(t0[1]) == 'count')
+
+    def is_scored_len(t):
+        t0 = strip(t)
+        return t0[0] == 'call' and t0[1].endswith('::len') and bool(t0[2])
+
+    def min_of_count_and_len(t):
+        """`count.min(len)` / `cmp::min(count, len)` / `if count < len { count } else { len }` (any spelling of the test)"""
+        t0 = strip(t)
+        if t0[0] == 'call' and t0[1].endswith('::min') and len(t0[2]) == 2:
+            a, b = t0[2]
+            return (is_count(a) and is_scored_len(b)) or (is_count(b) and is_scored_len(a))
+        if t0[0] == 'phi' and len(t0[2]) == 2:
+            pd = phi_defs(f, t0) or []
+            if len(pd) != 2:
+                return False
+            ok_all = True
+            for bdef, tdef in pd:
+                picks_count = is_count(tdef)
+                picks_len = is_scored_len(tdef)
+                if not (picks_count or picks_len):
+                    return False
+                decided = False
+                for s0, x0, e in paths.controlling_conds(f, bdef, transitive=False):
+                    if e[0] != 'bool':
+                        continue
+                    c0 = strip(e[1])
+                    if c0[0] == 'binop' and c0[1] in ('Lt', 'Le', 'Gt', 'Ge'):
+                        l_, r_ = c0[2], c0[3]
+                        if is_count(l_) and is_scored_len(r_):
+                            cnt_first = True
+                        elif is_scored_len(l_) and is_count(r_):
+                            cnt_first = False
+                        else:
+                            continue
+                        # on this edge: is count the smaller (or equal) one?
+                        for cv, lv in ((1, 2), (2, 1)):
+                            a_, b_ = (cv, lv) if cnt_first else (lv, cv)
+                            truth = {'Lt': a_ < b_, 'Le': a_ <= b_, 'Gt': a_ > b_, 'Ge': a_ >= b_}[c0[1]]
+                            if truth == e[2]:
+                                # this ordering reaches the definition: the picked value must be the minimum
+                                if (picks_count and cv > lv) or (picks_len and lv > cv):
+                                    ok_all = False
+                        decided = True
+                if not decided:
+                    return False
+            return ok_all
+        return False
+    caps = []
+    for bi, blk in enumerate(f.blocks):
+        if blk['cleanup']:
+            continue
+        c = f.call_at(bi)
+        if c is not None and c.callee.endswith('::min') and len(c.args) == 2 and min_of_count_and_len(('call', c.callee, [c.arg_term(0), c.arg_term(1)], bi)):
+            caps.append(('call', bi))
+    for l, loc in enumerate(f.locals):
+        if loc['ty'] == 'usize':
+            t = f.local_term(l)
+            if strip(t)[0] == 'phi' and min_of_count_and_len(t):
+                caps.append(('phi', l))
+    okm = bool(caps)
+    ctx.check(okm, 'S9-OUTPUT', f.path + '/bound', f.loc(), 'capacity = min(count, scored candidates)', 'the result bound of `%s` is not min(count, number of scored candidates)' % f.path)
+
+    def is_cap(x):
+        for y in walk(x):
+            if y[0] == 'call' and y[1].endswith('::min') and isinstance(y[3], int) and ('call', y[3]) in caps:
+                return True
+            if y[0] == 'phi' and ('phi', y[1]) in caps:
+                return True
+        return False
     # output loop: break when len == capacity, push (item, normalized_distance(dist, self.dimensions)) of the same popped tuple
     nd = [c for c in f.calls() if c.callee.endswith('Distance::normalized_distance')]
     oko = False
@@ -689,13 +783,22 @@ def r_scoring(ctx, tv, rule='S8-SCORE'):
                     a, b2 = strip(c0[2]), strip(c0[3])
                     def is_len_out(x):
                         return x[0] == 'call' and x[1].endswith('::len') and x[2] and strip_all(x[2][0]) == outv
-                    def is_cap(x):
-                        return any(y[0] == 'call' and y[1].endswith('::min') and any(z[0] == 'field' and z[2] == 'count' or (z[0] == 'arg' and f.local_name(z[1]) == 'count') for z in walk(y)) for y in walk(x))
                     op, tr = c0[1], e[2]
                     if is_len_out(a) and is_cap(b2):
                         okb = okb or (op, tr) in (('Lt', True), ('Ge', False), ('Eq', False), ('Ne', True))
                     elif is_cap(a) and is_len_out(b2):
                         okb = okb or (op, tr) in (('Gt', True), ('Le', False), ('Eq', False), ('Ne', True))
+                if not okb:
+                    # `for _ in 0..capacity { match heap.pop() { Some(e) => out.push(..), None => break } }`: one push per round
+                    for s0, x0, e in paths.controlling_conds(f, p.bb, transitive=True):
+                        if e[0] == 'disc' and e[1][0] == 'discr' and strip(e[1][1])[0] == 'call' and strip(e[1][1])[1].endswith('Iterator::next'):
+                            nx = strip(e[1][1])
+                            rng = [y for y in walk(nx) if y[0] == 'agg' and y[1].endswith('ops::Range')]
+                            if rng and const_eval(dict(rng[0][3])['start']) == 0 and is_cap(dict(rng[0][3])['end']):
+                                nxc = f.call_at(nx[3])
+                                # the push cannot run twice without another `next` on the range
+                                again = f.reachable(p.target, avoid=[nxc.bb]) if nxc is not None else set()
+                                okb = nxc is not None and p.bb not in again
                 oko = oko and okb
     ctx.check(oko, 'S9-OUTPUT', f.path + '/emit', nd[0].loc() if nd else f.loc(), 'emits (id, D::normalized_distance(d, self.dimensions)) of one popped entry while len < capacity',
               'the output loop of `%s` does not emit (id, normalized distance) pairs of single heap entries bounded by the capacity' % f.path)
@@ -707,7 +810,7 @@ def r_scoring(ctx, tv, rule='S8-SCORE'):
             c = strip(e[1])
             if c[0] == 'call' and c[1].endswith('::is_empty') and any(s[0] == 'field' and s[2] == 'items' for s in walk(c)):
                 rets = [rb for rb, k, t in paths.ret_assigns(f) if k == 'ok' and rb in f.reachable(x) and tv.pop.bb not in f.reachable(x)]
-                oke = bool(rets)
+                oke = oke or bool(rets)
     ctx.check(oke, 'S12-EMPTY', f.path + '/empty-index', f.loc(), 'an empty index returns Ok(empty) without traversing', 'an empty index is no longer answered with an empty result')
 
 
